@@ -241,6 +241,24 @@ inline void energy_nat(const SplineCase<DIM>& c, std::vector<ld>& natP, ld& natT
   if (Tmax_out) *Tmax_out = Tmax;
 }
 
+// the same problem with `extra` more segments appended (durations and waypoints of the first N segments bit-equal): the
+// "larger problem whose prefix is the new problem" an object may have solved before being reused for a truncated trajectory
+template <int DIM>
+inline SplineCase<DIM> extend_case(Tape& t, const SplineCase<DIM>& c, int extra) {
+  SplineCase<DIM> e = c;
+  e.N = c.N + extra;
+  e.T.resize(e.N);
+  e.P.conservativeResize(e.N + 1, DIM);
+  for (int i = c.N; i < e.N; ++i) {
+    e.T[i] = c.T[t.range(0, c.N - 1)];
+    for (int d = 0; d < DIM; ++d) e.P(i + 1, d) = e.P(i, d) + t.sym(64) / 64.0 * std::max(1e-3, c.M) * 0.25;
+  }
+  double M = 0;
+  for (int i = 0; i <= e.N; ++i) for (int d = 0; d < DIM; ++d) M = std::max(M, std::fabs(e.P(i, d)));
+  e.M = std::max(M, 1e-300);
+  return e;
+}
+
 // ---- building library objects
 template <int DIM, int S>
 inline typename SplineOf<DIM, S>::type build_spline(const SplineCase<DIM>& c) {
